@@ -458,6 +458,13 @@ class FnDep:
                     p = ins.discr_place()
                     uses |= self.place_uses(p)
                     atoms |= self.place_atoms(p)
+                    # which enum is matched on (for `match node { Node::StartDepot(_) => .. }` instead of is_start_depot())
+                    tk = body.local_tk(p.local)
+                    if all(pp["k"] == "deref" for pp in p.proj):
+                        while tk.get("k") == "ref":
+                            tk = tk.get("t", {})
+                        if tk.get("k") == "adt":
+                            atoms.add("discr:%s" % tk.get("p"))
                 else:
                     for o in ins.ops:
                         uses |= self.operand_uses(o)
